@@ -85,7 +85,10 @@ class Check:
 
     # ---- verdict ------------------------------------------------------------------------------------------------
     def finish(self, level="model_checking"):
-        os.makedirs(EVIDENCE, exist_ok=True)
+        # ids X.. are extensions of the specification beyond the listed properties: own evidence directory, never a VIOLATION line
+        ext = self.pid.startswith("X")
+        evdir = os.path.join(os.path.dirname(EVIDENCE), "extensions", "evidence") if ext else EVIDENCE
+        os.makedirs(evdir, exist_ok=True)
         replay_path = None
         if self.violations:
             os.makedirs(REPLAY, exist_ok=True)
@@ -102,7 +105,7 @@ class Check:
         cov.update(self.extra)
         ev = dict(property_id=self.pid, tier=self.tier, seed=self.seed, level=level, coverage=cov,
                   assumptions=self.assumptions, wall_s=round(time.time() - self.t0, 2), violations=len(self.violations))
-        with open(os.path.join(EVIDENCE, self.pid + ".json"), "w") as f:
+        with open(os.path.join(evdir, self.pid + ".json"), "w") as f:
             json.dump(ev, f, indent=1, default=_js)
         for kid, v in sorted(self.known_hits.items()):
             print("KNOWN-FINDING: property=%s %s [%s, %d case(s)]" % (self.pid, v["what"], kid, v["n"]))
@@ -110,6 +113,9 @@ class Check:
             for v in self.violations[:10]:
                 print("  mismatch clause=%s sig=%s detail=%s" % (v["clause"], v["sig"], json.dumps(v["detail"], default=_js)[:600]))
             print("  violation signatures: %s" % json.dumps(self.sig_counts))
+            if ext:
+                print("EXTENSION-FINDING module=%s replay=%s (beyond the listed properties: reported, exit 0)" % (self.pid, replay_path))
+                return 0
             print("VIOLATION property=%s replay=%s" % (self.pid, replay_path))
             return 1
         print("OK property=%s tier=%s states=%d transitions=%d s2c=%d c2s=%d wall=%.1fs"
